@@ -402,6 +402,29 @@ def run(ck):
     from . import C08
     ck.rule("C12-MTFLUSH", "threaded encoder: LZMA_FULL_FLUSH / LZMA_FINISH complete only with an empty output queue")
     evaluate(ck, prog, "C12-MTFLUSH", [t for t in C08.TABLE if getattr(t, "oid", "") in ("flush-needs-empty-queue", "finish-needs-index")], floor=1)
+    # "a flush completes": a filter that is the last coder of its chain decides itself when a flush/finish is complete --
+    # delta_encode() reaches its return only through the `action != LZMA_RUN && *in_pos == in_size` decision, also when
+    # the call brought no input (a flush right after a flush)
+    de = prog.fn("delta_encode", "delta_encoder.c")
+    ck.saw_function(de)
+    ck.rule("C12-LASTEND", "delta_encode as the last coder: every return passes the test of `action` that yields LZMA_STREAM_END")
+    last = [b for b in de.blocks.values() if b.term and "cond" in b.term and len(b.succs) == 2 and
+            ex.show(ex.strip(b.term["cond"])).replace("(", "").replace(")", "") in ("coder->next.code == 0", "coder->next.code == NULL")]
+    if not last:
+        raise AnalysisBroken("delta_encode: the test coder->next.code == NULL was not found")
+
+    def via_act(bb, ii, ee):
+        return any(x.get("k") == "bin" and x["op"] in ("==", "!=") and "action" in ex.show(x) and "LZMA_RUN" in ex.show(x)
+                   for x in ex.walk(ee, into_refs=False))
+    okl, pathl = cfg.must_pass(de, [last[0].succs[0]], [de.exit], via_act)
+    ck.ob("C12-LASTEND", "delta_encode", okl, common.where(de),
+          "delta_encode: without a next coder, every return passes `action != LZMA_RUN && *in_pos == in_size`" if okl else
+          "delta_encode() can return (lines %s) as the last coder of the chain without evaluating `action != LZMA_RUN && *in_pos == "
+          "in_size`: a LZMA_SYNC_FLUSH/LZMA_FULL_FLUSH/LZMA_FINISH call that brings no new input gets LZMA_OK for ever and the flush "
+          "never completes" % cfg.path_lines(de, pathl), key="LASTEND:delta_encode")
+    # "changing the filter chain between Blocks": the LZ encoder of the previous Block is re-used; its hash/son arrays are kept
+    # only if their final size keys are unchanged (rule shared with C10)
+    C10.check_sizekey(ck, prog, rule="C12-SIZEKEY", files={"lz_encoder.c"}, floor=1)
     ck.floor("C12-CONV", 3)
     ck.floor("C12-LZMA2", 5)
     ck.floor("C12-UPD", 3)
